@@ -110,7 +110,7 @@ class Shrinker:
                 return
             cand = copy.deepcopy(self.best)
             cw = cand["world"]
-            if cw["ids"] == "adopted":
+            if cw["ids"] in ("adopted", "from_tracks+ids"):
                 break  # adopted ids must stay consistent with the edges
             cw["edges"].remove(e)
             cw["conf"].pop(f"{e[0]},{e[1]}", None)
